@@ -82,7 +82,11 @@ package optimization
 //@ define adapterOf(c Cluster) = unbox(c, "*app/dcs.OptimizationClusterAdapter")
 //@ define known(c Cluster, h string) = has(adapterOf(c).clusterState, h)
 //@ define clusterOKc(c Cluster) = c != nil && hastype(c, "*app/dcs.OptimizationClusterAdapter") && adapterOf(c) != nil && adapterOK(adapterOf(c))
+// lagUnknown(c, h): host h must not be (or stay) relaxed - it is the master, has no replica state, or reports no lag
+//@ define lagUnknown(c Cluster, h string) = !known(c, h) || adapterOf(c).clusterState[h].IsMaster || adapterOf(c).clusterState[h].SlaveState == nil || adapterOf(c).clusterState[h].SlaveState.ReplicationLag == nil
 //@ func (*app/optimization.Syncer).getClusterHostsState
+//@   loop 1 invariant lag [C19]: hostsState != nil && (forall i int :: in_range(i, hostsState.OptimizingHosts) ==> !lagUnknown(c, hostsState.OptimizingHosts[i])) && (forall i int :: in_range(i, hostsState.DisabledHosts) ==> !lagUnknown(c, hostsState.DisabledHosts[i])) && (forall i int :: in_range(i, hostsState.OptimizedHosts) ==> !lagUnknown(c, hostsState.OptimizedHosts[i]))
+//@   ensures C19.unknown_lag_never_kept_relaxed [C19]: result1 == nil ==> result0 != nil && (forall i int :: in_range(i, result0.OptimizingHosts) ==> !lagUnknown(c, result0.OptimizingHosts[i])) && (forall i int :: in_range(i, result0.DisabledHosts) ==> !lagUnknown(c, result0.DisabledHosts[i])) && (forall i int :: in_range(i, result0.OptimizedHosts) ==> !lagUnknown(c, result0.OptimizedHosts[i]))
 //@   requires c20 [safety]: clusterOKc(c)
 //@   loop 1 invariant hs: hostsState != nil && (forall i int :: in_range(i, hostsState.OptimizingHosts) ==> known(c, hostsState.OptimizingHosts[i])) && (forall i int :: in_range(i, hostsState.DisabledHosts) ==> known(c, hostsState.DisabledHosts[i]))
 //@   ensures C20.classified_known [C20]: result1 == nil ==> result0 != nil && (forall i int :: in_range(i, result0.OptimizingHosts) ==> known(c, result0.OptimizingHosts[i])) && (forall i int :: in_range(i, result0.DisabledHosts) ==> known(c, result0.DisabledHosts[i]))
